@@ -13,6 +13,8 @@
                                                 joined errors (Unwrap() []error), lines = the
                                                 message split at newlines, is = which of the
                                                 known errors errors.Is reports
+     stuck                                      the call had not returned when the watchdog expired
+                                                (the harness only makes calls that can return)
      end     leaked                             every goroutine the call started is gone, or is
                                                 blocked for good sending on errChan (leaked of them;
                                                 -1: not observed by this driver)
@@ -40,11 +42,12 @@ TRet   == IsEvent("ret")
           /\ E.lines = E.parts                       \* Error() is the messages joined by newlines
           /\ E.isnil = (E.parts = <<>>)              \* nil exactly when nothing was collected
           /\ SeqToSet(E.is) = IsSet(E.parts) \cap Known
+TStuck == IsEvent("stuck") /\ Stuck
 TEnd   == IsEvent("end") /\ End /\ E.leaked \in {0, -1}
 TQuiesce == IsEvent("quiesce") /\ st = "idle" /\ E.leaked = 0 /\ UNCHANGED rvars
 
 TInit == RInit /\ l = 1
-TNext == TReset \/ TStart \/ TAtt \/ TCancel \/ TRet \/ TEnd \/ TQuiesce
+TNext == TReset \/ TStart \/ TAtt \/ TCancel \/ TRet \/ TStuck \/ TEnd \/ TQuiesce
 TSpec == TInit /\ [][TNext]_tvars
 
 TInv == RTypeOK /\ AttemptsOK /\ ResultOK /\ LateOK /\ NoCtxErrorWithoutCause /\ NilMeansSuccess
